@@ -107,7 +107,7 @@ func c18GenOps(T *Tape, sc *sharedCodecs, task int, n int) []shareOp {
 			codec := sc.frameCodecs[ci]
 			f := GenFrame(T, GenOpts{Version: v, Requests: T.Bool("req", 0.5), Responses: true, MaxBytes: 3000, BigChance: 0.2, Compressible: T.Bool("compressible", 0.5), HeaderFlags: true}, int16(1+T.Draw("stream", 100)))
 			if ci != 0 && T.Bool("compressflag", 0.7) {
-				f.SetCompress(true)
+				markCompressed(T, f)
 			}
 			var encoded []byte
 			ops = append(ops, shareOp{name: tag + ":EncodeFrame/" + sc.frameNames[ci] + "/" + KindOf(f.Body.Message), run: func() (interface{}, error) {
